@@ -22,12 +22,26 @@ Scope (DESIGN §2.9: result(bind(v)) is an inverse pair only where the driver is
  (b) the driver-independent non-native types (Boolean, Interval(native=False), Enum(native_enum=False), PickleType,
      Uuid(native_uuid=False), LargeBinary, TypeDecorators) on the postgresql / mysql / mssql / oracle dialects, clause inverse + once;
  (c) clause once in the nesting contexts, SQLite.
-Server-dialect processors that consume driver-specific Python types, aware datetimes on SQLite (its storage format has no
-offset) and ARRAY on a live server are outside.
+(d) postgresql.ARRAY (the only ARRAY with processors) on the postgresql dialects psycopg2 / psycopg / asyncpg / pg8000, clauses
+     inverse + once, for every item type of the array catalogue x dimensions {None, 1, 2} x as_tuple {False, True} x ALL lists
+     of length 0..3 (1-D) / all rectangular 1..2 x 1..2 matrices (2-D) over the item type's element set (None always an
+     element).  The driver delivers an array in one of two *wire forms*:
+       list   a Python list of the stored elements (drivers with an array typecaster: identity on the stored form, as in (b))
+       text   the server's text output '{a,"b c",NULL}' - what psycopg2 / psycopg / pg8000 hand back for an array of a
+              user-defined ENUM type (no typecaster registered); item types that are a native ENUM are evaluated in BOTH forms.
+     The text form is the *documented* output syntax of PostgreSQL arrays (manual 8.15.6, spec function pg_array_out below):
+     elements separated by ',', enclosed in braces; an element is double-quoted iff it is empty, contains a brace, the
+     delimiter, a double quote, a backslash or white space, or matches the word NULL (case-insensitively); inside quotes,
+     double quote and backslash are backslash-escaped; a NULL element is the unquoted word NULL.
+     Native ENUM labels: ALL strings of length 0..2 over the alphabet { a, space, comma, double quote, backslash, left brace }
+     plus the words NULL, null and two plain labels (every quoting trigger of the output syntax, alone and in pairs).
+Server-dialect processors that consume driver-specific Python types other than the above, aware datetimes on SQLite (its
+storage format has no offset) and the server side of ARRAY (storage, array_in) are outside.
 """
 import datetime as dt
 import decimal
 import enum
+import itertools
 import json
 import uuid
 import warnings
@@ -501,6 +515,166 @@ def eval_context(name):
     return failed, facts
 
 
+# ----------------------------------------------------------------------------------------------- (d) postgresql.ARRAY
+LABEL_ALPHABET = 'a ,"\\{'
+
+
+class Shade(enum.Enum):
+    """a Python enum persisted by its values, which need every kind of quoting in the array text form"""
+    light = "light"
+    dark_blue = "dark blue"
+    comma = "a,b"
+    quote = 'q"t'
+    backslash = "b\\s"
+    null = "NULL"
+
+
+def enum_labels():
+    """all strings of length 0..2 over LABEL_ALPHABET + the words NULL / null + two plain labels"""
+    return ["".join(t) for n in range(0, 3) for t in itertools.product(LABEL_ALPHABET, repeat=n)] + ["NULL", "null", "one", "three"]
+
+
+CORE_LABELS = ["one", "a ", "a,", 'a"', "a\\", "NULL"]
+
+
+def pg_array_out(value):
+    """spec (PostgreSQL manual 8.15.6 "Array Input and Output Syntax"): the text the server's array output routine produces
+    for an array whose elements have the text form `str` (None = NULL element; nested lists = further dimensions)"""
+    out = []
+    for v in value:
+        if v is None:
+            out.append("NULL")
+        elif isinstance(v, (list, tuple)):
+            out.append(pg_array_out(v))
+        elif v == "" or v.upper() == "NULL" or any(ch in v for ch in '{}," \\\t\n\r\v\f'):
+            out.append('"%s"' % v.replace("\\", "\\\\").replace('"', '\\"'))
+        else:
+            out.append(v)
+    return "{%s}" % ",".join(out)
+
+
+_ACAT = {}
+
+
+def array_catalogue():
+    """array item id -> dict(make, elements, core, mode, deco, forms)"""
+    if _ACAT:
+        return _ACAT
+    from sqlalchemy import Enum
+    from sqlalchemy.dialects import postgresql
+    cat = catalogue()
+    for tid in ("Integer", "String", "Boolean", "Enum('a','b',native_enum=False)", "Enum(Color,native_enum=False)", "Uuid(native_uuid=False)",
+                "Interval(native=False)", "TypeDecorator Tagged(String)", "TypeDecorator Plus(Integer)", "TypeDecorator DecoEnum(Enum)"):
+        ent = cat[tid]
+        elems = [v for v in ent["values"] if v is not None][:3] + [None]
+        _ACAT[tid] = dict(make=ent["make"], elements=elems, core=elems, mode=ent["mode"], deco=ent["deco"], forms=("list",))
+    labels = enum_labels()
+    _ACAT["Enum(labels) native"] = dict(make=lambda: Enum(*labels, name="verif_lbl"), elements=labels + [None], core=CORE_LABELS + [None], mode="exact",
+                                        deco=None, forms=("list", "text"))
+    _ACAT["postgresql.ENUM(labels)"] = dict(make=lambda: postgresql.ENUM(*labels, name="verif_lbl"), elements=labels + [None], core=CORE_LABELS + [None],
+                                            mode="exact", deco=None, forms=("list", "text"))
+    _ACAT["Enum(Shade,values_callable) native"] = dict(make=lambda: Enum(Shade, name="verif_shade", values_callable=lambda c: [m.value for m in c]),
+                                                       elements=list(Shade) + [None], core=list(Shade) + [None], mode="is", deco=None, forms=("list", "text"))
+    return _ACAT
+
+
+_PG = {}
+
+
+def pg_dialects():
+    if not _PG:
+        from sqlalchemy.dialects.postgresql import asyncpg, pg8000, psycopg, psycopg2
+        _PG.update(psycopg2=psycopg2.dialect(), psycopg=psycopg.dialect(), asyncpg=asyncpg.dialect(), pg8000=pg8000.dialect())
+    return _PG
+
+
+def array_values(ent, full, form="list"):
+    """(shape, value): None; 1-D: every list of length 0..2 over the element set (full) / the core elements, and every list of
+    length 3 over the core elements; 2-D: every rectangular r x c matrix, r, c in 1..2, over the core elements (text form: over the
+    first two core elements + None - one dimension is all the text parser claims to handle, see known findings)"""
+    yield "none", None
+    el, core = (ent["elements"] if full else ent["core"]), ent["core"]
+    for n in range(0, 3):
+        for t in itertools.product(el, repeat=n):
+            yield "1d", list(t)
+    for t in itertools.product(core, repeat=3):
+        yield "1d", list(t)
+    core2 = core if form == "list" else core[:2] + [None]
+    for r in (1, 2):
+        for c in (1, 2):
+            for t in itertools.product(core2, repeat=r * c):
+                yield "2d", [list(t[k * c:(k + 1) * c]) for k in range(r)]
+
+
+def same_array(v, back, mode, as_tuple):
+    if v is None or back is None:
+        return v is None and back is None
+    if isinstance(v, list):
+        return type(back) is (tuple if as_tuple else list) and len(back) == len(v) and all(same_array(a, b, mode, as_tuple) for a, b in zip(v, back))
+    return same(v, back, mode)
+
+
+def _flat(v):
+    if isinstance(v, (list, tuple)):
+        for x in v:
+            yield from _flat(x)
+    else:
+        yield v
+
+
+_ATYPES = {}
+
+
+def eval_array(aid, dname, dims, as_tuple, form, value):
+    """clauses inverse + once for postgresql.ARRAY(item) with the driver delivering `form` -> (failed clauses, facts)"""
+    from sqlalchemy.dialects import postgresql
+    ent = array_catalogue()[aid]
+    d = pg_dialects()[dname]
+    failed, facts = [], dict(value=show(value))
+    COUNTS.clear()
+    wire = None
+    try:
+        key = (aid, dims, as_tuple)
+        if key not in _ATYPES:
+            _ATYPES[key] = postgresql.ARRAY(ent["make"](), dimensions=dims, as_tuple=as_tuple)
+        t = _ATYPES[key]
+        bp, rp = t._cached_bind_processor(d), t._cached_result_processor(d, None)
+        stored = bp(value) if bp else value
+        wire = stored if form == "list" or stored is None else pg_array_out(stored)
+        back = rp(wire) if rp else wire
+    except Exception as e:      # noqa: BLE001
+        return ["inverse"], dict(facts, wire=show(wire), exception=f"{type(e).__name__}: {e}"[:200])
+    facts.update(wire=show(wire), back=show(back))
+    if not same_array(value, back, ent["mode"], as_tuple):
+        failed.append("inverse")
+    if ent["deco"] and value is not None:
+        n = sum(1 for _ in _flat(value))
+        facts["counts"] = dict(COUNTS, elements=n)
+        if any(COUNTS.get(name + ".bind", 0) != n or COUNTS.get(name + ".result", 0) != n for name in ent["deco"]):
+            failed.append("once")
+    return failed, facts
+
+
+def array_cases():
+    """(aid, dialect, dimensions, as_tuple, form, full, value index, shape, value) - the whole scope (d)"""
+    for aid, ent in array_catalogue().items():
+        for dname in pg_dialects():
+            # the element set is enumerated in full on the psycopg2 dialect, the core elements on the others (same processors, other impl class)
+            full = dname == "psycopg2"
+            for form in ent["forms"]:
+                vals = list(array_values(ent, full, form))
+                for as_tuple in (False, True):
+                    for k, (shape, value) in enumerate(vals):
+                        for dims in ((None, 1, 2) if shape == "none" else (None, 1) if shape == "1d" else (None, 2)):
+                            yield aid, dname, dims, as_tuple, form, full, k, shape, value
+
+
+def array_input(aid, dname, dims, as_tuple, form, full, k, shape, value):
+    """the JSON description of one array case (what a known-finding entry is matched against and what replay() re-runs)"""
+    return dict(path="array", type=aid, dialect=dname, dimensions=dims, as_tuple=as_tuple, form=form, full=full, value_index=k, shape=shape,
+                value=show(value), elements_ending_in_backslash=sum(1 for x in _flat(value) if isinstance(x, str) and x.endswith("\\")))
+
+
 # ----------------------------------------------------------------------------------------------- driver
 def run(run, tier, seed, args):
     import sqlalchemy
@@ -538,6 +712,19 @@ def run(run, tier, seed, args):
         failed, facts = eval_sqlite(tid, 0, many=True)
         for clause in failed:
             fails.append((f"{tid} @ sqlite3", clause, dict(type=tid, dialect="sqlite3", value_index=-1, value=facts["value"], path="sqlite3-executemany"), facts))
+    n_array, array_by_form = 0, {}
+    for case in array_cases():
+        aid, dname, dims, as_tuple, form, full, k, shape, value = case
+        n_eval += 1
+        n_array += 1
+        failed, facts = eval_array(aid, dname, dims, as_tuple, form, value)
+        array_by_form[form] = array_by_form.get(form, 0) + 1
+        if value:       # a non-empty array: every element goes through the item processors / the text parser
+            nontrivial.add(("array", aid, dname, form, full, k))
+        if form == "text" and shape == "1d" and len(value) == 3 and None in value and len(samples) < 8 and n_array % 101 == 0:
+            samples.append(dict(array_of=aid, dialect=dname, form=form, value=facts["value"], wire=facts.get("wire"), back=facts.get("back")))
+        for clause in failed:
+            fails.append((f"ARRAY({aid}) @ {dname} [{form} form]", clause, array_input(*case), facts))
     ctx_names = list(contexts())
     for name in ctx_names:
         n_eval += 1
@@ -567,18 +754,27 @@ def run(run, tier, seed, args):
         evaluations=n_eval, distinct_nontrivial=len(nontrivial), exhaustive=True,
         rule="cases = (type, dialect, boundary value) for the processor pair, (type, value) and (type, all values as one executemany) through a real "
              "in-memory sqlite3 database, and one case per nesting context; distinct by construction; non-trivial = a result processor exists or the "
-             "stored form differs from the Python value (every database and context case counts)",
+             "stored form differs from the Python value (every database and context case counts); (d): one case = (item type, dialect, dimensions, "
+             "as_tuple, wire form, array value), non-trivial = distinct (item type, dialect, wire form, array value) with a non-empty array",
         scope=f"{len(cat)} types x boundary catalogues (None always included; Boolean / Enum exhaustive) on SQLite + DefaultDialect (processor pair) and through "
               f"sqlite3 {__import__('sqlite3').sqlite_version}; {sum(1 for e in cat.values() if e['group'] == 'portable')} driver-independent types also on "
-              f"postgresql / mysql / mssql / oracle (processor pair); {len(ctx_names)} nesting contexts for the exactly-once clause on SQLite",
+              f"postgresql / mysql / mssql / oracle (processor pair); {len(ctx_names)} nesting contexts for the exactly-once clause on SQLite; "
+              f"postgresql.ARRAY of {len(array_catalogue())} item types ({sum(1 for e in array_catalogue().values() if 'text' in e['forms'])} native ENUMs, "
+              f"{len(enum_labels())} labels = all strings of length 0..2 over {LABEL_ALPHABET!r} + NULL / null / 2 plain) x dialects {list(pg_dialects())} x "
+              f"dimensions None / 1 / 2 x as_tuple x wire form list / text (native ENUMs: both) x all lists of length 0..2 over the element set "
+              f"(full on psycopg2, core elements on the other dialects), of length 3 over the core elements, all 1..2 x 1..2 matrices: {n_array} cases",
+        array_cases_by_wire_form=array_by_form, array_item_types=list(array_catalogue()),
         types=list(cat), dialect_scope={k: len(v) for k, v in by_dialect.items()}, contexts=ctx_names, contract_failures=len(fails),
-        samples=samples[:9], sqlalchemy=sqlalchemy.__file__)
+        samples=samples[:12], sqlalchemy=sqlalchemy.__file__)
     run.assumptions += [
         "driver = identity on the stored form: holds for sqlite3 (exercised for real) and is assumed for the processor-pair evaluation on the other dialects, "
         "which is why only driver-independent types are evaluated there (DESIGN 2.9)",
         "aware datetimes on SQLite outside (no offset in the storage format); Numeric beyond 15 significant digits outside (SQLite stores REAL); "
         "ints beyond 64 bit, dates outside datetime's range outside the types' domains",
-        "ARRAY, native ENUM / UUID / INTERVAL / JSON of the server dialects: their processors consume driver objects - outside",
+        "native UUID / INTERVAL / JSON of the server dialects: their processors consume driver objects - outside",
+        "ARRAY: the two wire forms (list = identity of the driver's array typecaster; text = PostgreSQL's documented array output syntax, manual 8.15.6, "
+        "spec function pg_array_out) are assumed contracts of driver and server - no server is run; element text of a native ENUM = its label; "
+        "array_in / storage on the server, arrays with lower bounds ('[2:3]={...}'), labels outside the enumerated alphabet are outside",
         "Python's pickle, json, uuid, datetime, decimal modules are trusted",
     ]
     if n_eval < 500:
@@ -588,7 +784,10 @@ def run(run, tier, seed, args):
 def replay(data):
     warnings.simplefilter("ignore")
     inp, clause = data["input"], data.get("clause")
-    if inp.get("path") == "context":
+    if inp.get("path") == "array":
+        shape, value = list(array_values(array_catalogue()[inp["type"]], inp["full"], inp["form"]))[inp["value_index"]]
+        failed, facts = eval_array(inp["type"], inp["dialect"], inp["dimensions"], inp["as_tuple"], inp["form"], value)
+    elif inp.get("path") == "context":
         failed, facts = eval_context(inp["context"])
     elif inp.get("path") == "processors":
         failed, facts = eval_pair(inp["type"], inp["dialect"], inp["value_index"])
